@@ -476,6 +476,80 @@ def pipelineR (fuel n : Nat) (filter : Option String) (doc : Doc) (defs : List (
     (defaultErrors : Nat) : Outcome :=
   outcomeOf (ruleR fuel n filter doc defs raw) defaultErrors
 
+/-! #### after proposed_fixes/C19-Q1vars2.patch: the `skip_selection` hook of `collect_fields_untyped`
+
+  `collect_fields_untyped(..., skip_selection=None)` evaluates `@skip/@include` with the given callable
+  (default: the strict `_skip_selection`, which raises `CoercionError` on an unusable variable); the depth
+  rule passes `_skip_unless_unknown`: a condition that cannot be evaluated KEEPS the selection. -/
+
+/-- `_skip_unless_unknown(node, variables)` -/
+def skipSelectionT (d : Dirs) (vars : Vars) : Except Err Bool :=
+  match skipSelection d vars with
+  | .ok b => .ok b
+  | .error _ => .ok false          -- `except CoercionError: return False`
+
+/-- body of the loop of `collect_fields_untyped` with `skip = skip_selection or _skip_selection` -/
+def collectStepG (skipFn : Dirs → Vars → Except Err Bool)
+    (rec : List Sel → List String → Except Err CState)
+    (frags : List Frag) (vars : Vars) (st : CState) : Sel → Except Err CState
+  | .field alias name dirs sub =>
+    match skipFn dirs vars with
+    | .error e => .error e
+    | .ok true => .ok st
+    | .ok false => .ok (extendKey st.1 (responseName alias name) [⟨alias, name, sub⟩], st.2)
+  | .inline dirs sels =>
+    match skipFn dirs vars with
+    | .error e => .error e
+    | .ok true => .ok st
+    | .ok false =>
+      match rec sels st.2 with
+      | .error e => .error e
+      | .ok (g, seen') => .ok (merge g st.1, seenAfterCall st.2 seen')
+  | .spread name dirs =>
+    match skipFn dirs vars with
+    | .error e => .error e
+    | .ok true => .ok st
+    | .ok false =>
+      if st.2.contains name then .ok st
+      else
+        match lookupFrag frags name with
+        | none => .ok st
+        | some fr =>
+          match rec fr.sels st.2 with
+          | .error e => .error e
+          | .ok (g, seen') => .ok (merge g st.1, setAdd (seenAfterCall st.2 seen') name)
+
+/-- `collect_fields_untyped(selections, fragments, variables, _seen_fragments, skip_selection=skipFn)` -/
+def collectFieldsUntypedG (skipFn : Dirs → Vars → Except Err Bool) :
+    Nat → List Sel → List Frag → Vars → List String → Except Err CState
+  | 0, _, _, _, _ => .error .recursion
+  | fuel + 1, sels, frags, vars, seen =>
+    loopM (collectStepG skipFn (fun ss sn => collectFieldsUntypedG skipFn fuel ss frags vars sn) frags vars) ([], seen) sels
+
+/-- `_nesting_levels` with `collect_fields_untyped(..., skip_selection=skipFn)` -/
+def nestingLevelsG (skipFn : Dirs → Vars → Except Err Bool) : Nat → List Sel → List Frag → Vars → Except Err Nat
+  | 0, _, _, _ => .error .recursion
+  | fuel + 1, sels, frags, vars =>
+    match collectFieldsUntypedG skipFn (fuel + 1) sels frags vars [] with
+    | .error e => .error e
+    | .ok (collected, _) => levelsLoop (fun ss => nestingLevelsG skipFn fuel ss frags vars) 0 collected
+
+def depthFixedG (skipFn : Dirs → Vars → Except Err Bool) (fuel : Nat) (op : Op) (frags : List Frag) (vars : Vars) :
+    Except Err Nat :=
+  match nestingLevelsG skipFn fuel op.sels frags vars with
+  | .error e => .error e
+  | .ok n => .ok (n - 1)
+
+/-- the rule after C19-Q1vars2.patch (raw JSON request variables, tolerant directive evaluation) -/
+def ruleRT (fuel limit : Nat) (filter : Option String) (doc : Doc) (defs : List (List VarDefR)) (raw : RawVars) :
+    Except Err (List (Nat × Nat)) :=
+  ruleLoop (fun i op => depthFixedG skipSelectionT fuel op doc.frags (effectiveVarsR (defs.getD i []) raw))
+    limit filter 0 doc.ops
+
+def pipelineRT (fuel n : Nat) (filter : Option String) (doc : Doc) (defs : List (List VarDefR)) (raw : RawVars)
+    (defaultErrors : Nat) : Outcome :=
+  outcomeOf (ruleRT fuel n filter doc defs raw) defaultErrors
+
 /-! ### fuel: a computable potential that bounds every recursion on acyclic documents -/
 
 mutual
